@@ -182,8 +182,21 @@ pub fn cmd_matrix(a: &[String]) {
     let mut rng = Rng::new(seed ^ 0xA11CE);
     match kind {
         "c10" => {
-            for class in 0..5 {
+            for class in 0..9 {
+                // classes 5..8: partly configured hubs (the owner registers the other contracts in
+                // separate transactions): no registry / no dispatcher / no tokens / no airdrop+reward
+                let partial: Option<[Option<Id>; 7]> = match class {
+                    5 => Some([Some(DISP), None, Some(BSEI), Some(STSEI), Some(AIRDROP), Some(REWARD), None]),
+                    6 => Some([None, Some(REG), Some(BSEI), Some(STSEI), Some(AIRDROP), Some(REWARD), None]),
+                    7 => Some([Some(DISP), Some(REG), None, None, Some(AIRDROP), Some(REWARD), None]),
+                    8 => Some([Some(DISP), Some(REG), Some(BSEI), Some(STSEI), None, None, None]),
+                    _ => None,
+                };
                 for op in genesis(&[201, 202, 203]) {
+                    let op = match (&op, &partial) {
+                        (Op::Tx { call: Call::Hub(HubMsg::UConfig(_)), .. }, Some(f)) => tx(OWNER, HUB, Call::Hub(HubMsg::UConfig(*f))),
+                        _ => op,
+                    };
                     out.step(&op);
                 }
                 if class >= 1 {
